@@ -334,6 +334,9 @@ def run(ctx, rep):
         u = F.adts.get(F.handle_paths.get("ArcUnion", ""))
         if u:
             c12.tag_rules(F, rep, tag, [g["name"] for g in u["generics"] if g["kind"] == "type"], rule="R-UNION-ADDR")
+            # ... and a clone of the union holds the same word (or re-tags at its own variant): the address `borrow()` hands out
+            # does not change by cloning
+            c12._arms(F, balance.analysis(tag, F, E), rep, tag, [g["name"] for g in u["generics"] if g["kind"] == "type"], only_count=True)
     # ---------------------------------------------------------- R-WIDTH: compile-time layout witnesses
     c13.rule_witnesses(ctx, rep, prefix="c11_")
     rep.floor("R-RAWPAIR", 18, "value address, agreement, round trips, OffsetArc/ArcBorrow forms, heap_ptr")
